@@ -111,6 +111,7 @@ func runC13(c *Ctx, tier string) {
 	c.Rule("C13-M1", "cached snapshots are not mutated: every Snapshot mutator call has a receiver that is fresh in that function (NewSnapshot, Copy, a patch's diff) or a parameter whose callers pass fresh ones")
 	c.Rule("C13-M2", "a lister pins its snapshot: Lister.snap is written only while the lister is being constructed")
 	runJournalFreshness(c, "C13-R2")
+	runSnapshotCopyDeep(c, "C13-M3")
 	whoMayCall(c, "C13-W1", "storage.Engine.Delete/DeleteByPrefix",
 		func(cc *ssa.CallCommon, _ string) bool { return isEngineMethod(cc, "Delete", "DeleteByPrefix") },
 		map[string]string{
